@@ -343,3 +343,108 @@ def reorder_ops(root: ast.AST):
             st = n.slice.step
             if not (isinstance(st, ast.Constant) and st.value == 1):
                 yield n, f"slice with step {ast.unparse(st)}"
+
+
+# --------------------------------------------------------------------------
+_SCALARS = {"int", "str", "float", "bool", "bytes", "complex"}
+_CONTAINERS = {"list", "dict", "set", "tuple", "frozenset", "Sequence", "Iterable", "Mapping", "deque", "ndarray", "NDArray"}
+
+
+def falsy_object_tests(ctx, rule, scope) -> int:
+    """Truthiness tests (`if x:`, `if not x:`, `x or y`) on a value typed
+    ``T | None`` where T is an object type whose instances can be falsy: a
+    class of the DispatcherObserver cone (user-extensible: a subclass may
+    define ``__len__``), a type variable, or a package class whose cone
+    defines ``__len__`` / ``__bool__``.  ``is None`` is what is meant."""
+    import re
+
+    chk, repo = ctx.chk, ctx.repo
+    obs = repo.find_class(OBSERVER)
+    n_tests = 0
+    for fi in repo.all_functions():
+        if isinstance(fi.node, ast.Lambda) or not scope(fi):
+            continue
+        for n in own_nodes(fi.node):
+            tests = []
+            if isinstance(n, (ast.If, ast.While, ast.IfExp, ast.Assert)):
+                tests.append(n.test)
+            elif isinstance(n, ast.BoolOp):
+                tests += list(n.values[:-1]) if isinstance(n.op, ast.Or) else list(n.values)
+            for t in tests:
+                inner = t.operand if isinstance(t, ast.UnaryOp) and isinstance(t.op, ast.Not) else t
+                if not isinstance(inner, (ast.Name, ast.Attribute)):
+                    continue
+                n_tests += 1
+                ty = ctx.types.type_of(fi.module, inner)
+                if not ty or "None" not in ty:
+                    continue
+                heads = [h for h in re.findall(r"[A-Za-z_][A-Za-z0-9_\.]*", ty) if h not in ("None", "Union", "Optional", "builtins")]
+                heads = [h.split(".")[-1] for h in heads]
+                if not heads or any(h in _SCALARS or h in _CONTAINERS for h in heads):
+                    continue
+                risky = None
+                for h in heads:
+                    try:
+                        ci = repo.find_class(h)
+                    except AnalysisError:
+                        risky = f"{h} (a type variable / external type)" if h[0].isupper() else None
+                        if risky:
+                            break
+                        continue
+                    if repo.is_subclass(ci, obs.qualname):
+                        risky = f"{h} (observers are user-extensible: a subclass with __len__ is falsy while empty)"
+                        break
+                    for c in repo.subclasses(ci.qualname):
+                        if "__len__" in c.methods or "__bool__" in c.methods:
+                            risky = f"{c.name} defines {'__len__' if '__len__' in c.methods else '__bool__'}"
+                            break
+                    if risky:
+                        break
+                if risky:
+                    chk.violation(
+                        rule, fi, t,
+                        f"`{ast.unparse(t)}` tests the truthiness of a value of type `{ty}`: {risky}, so an existing object is "
+                        "treated like None; `is None` / `is not None` is meant",
+                        loc=fi.loc(t),
+                    )
+    return n_tests
+
+
+# --------------------------------------------------------------------------
+_ONE_SHOT = {"filter", "map", "zip", "iter", "reversed", "enumerate"}
+
+
+def one_shot_captures(ctx, rule, scope, why) -> int:
+    """A closure (nested def / lambda) that uses a variable of the enclosing
+    function bound to a one-shot iterator (filter/map/zip/iter/reversed/
+    enumerate or a generator expression): the first call of the closure
+    exhausts it and every later call sees it empty."""
+    chk = ctx.chk
+    n_closures = 0
+    for fi in ctx.repo.all_functions():
+        if isinstance(fi.node, ast.Lambda) or not scope(fi):
+            continue
+        inner = [n for n in ast.walk(fi.node) if isinstance(n, (ast.FunctionDef, ast.Lambda)) and n is not fi.node]
+        if not inner:
+            continue
+        shots = {}
+        for n in own_nodes(fi.node):
+            if isinstance(n, ast.Assign) and len(n.targets) == 1 and isinstance(n.targets[0], ast.Name):
+                v = n.value
+                if isinstance(v, ast.GeneratorExp) or (isinstance(v, ast.Call) and isinstance(v.func, ast.Name) and v.func.id in _ONE_SHOT):
+                    shots[n.targets[0].id] = n
+        for g in inner:
+            n_closures += 1
+            bound = {a.arg for a in g.args.args + g.args.kwonlyargs}
+            body_nodes = ast.walk(g.body) if isinstance(g, ast.Lambda) else (x for st in g.body for x in ast.walk(st))
+            for x in body_nodes:
+                if isinstance(x, ast.Name) and isinstance(x.ctx, ast.Load) and x.id in shots and x.id not in bound:
+                    st = shots[x.id]
+                    chk.violation(
+                        rule, fi, st,
+                        f"`{ast.unparse(st)[:80]}` is a one-shot iterator created once in {fi.name} and consumed inside the "
+                        f"returned closure: the first call uses it up, every later call iterates nothing - {why}",
+                        loc=fi.loc(st),
+                    )
+                    break
+    return n_closures
